@@ -533,6 +533,13 @@ func NewResponse(status int, hdr http.Header, body io.ReadCloser, trailer http.H
 		// as net/http does: the trailers appear when the body read reaches io.EOF
 		cb.resp, cb.pendingTrailer = res, trailer
 		res.Trailer = http.Header{}
+		// keys announced in the "Trailer" header are present, with nil values, from the start
+		// (net/http pre-fills them); a nil-valued key in trailer stands for "announced, never sent"
+		for k, vs := range trailer {
+			if vs == nil {
+				res.Trailer[k] = nil
+			}
+		}
 	}
 	return res
 }
